@@ -36,11 +36,32 @@ def section_props(b: float, h: float) -> dict:
     return {"A": b * h, "Iz": b * h**3 / 12, "Iy": h * b**3 / 12, "J": b * h**3 / 12 + h * b**3 / 12}
 
 
+def make_welded(dim: int, et: str, theory: str, x0: float, L: float, n: int, b: float, h: float, E: float, v: float, frac: float):
+    """Two members along x meeting at x0 + frac L, welded by add_connection_fixed (the joint node exists twice):
+    the solve then goes through the Lagrange-multiplier path."""
+    xm = x0 + frac * L
+    with quiet():
+        l1 = Line(Point(x0, 0, 0), Point(xm, 0, 0), frac * L / n)
+        l2 = Line(Point(xm, 0, 0), Point(x0 + L, 0, 0), (1 - frac) * L / n)
+        beams = [Models.Beam.Isotropic(dim, l1, rect_section(b, h), E, v), Models.Beam.Isotropic(dim, l2, rect_section(b, h), E, v)]
+        mesh = Mesher().Mesh_Beams(beams, elemType=ElemType(et))
+        simu = Simulations.Beam(mesh, Models.Beam.BeamStructure(beams), verbosity=False, useTimoshenko=(theory == "Timo"))
+        X = simu.mesh.coord
+        used = np.unique(simu.mesh.groupElem.connect.ravel())
+        joint = used[np.abs(X[used, 0] - xm) < 1e-9]
+        if len(joint) != 2:
+            raise RuntimeError(f"expected two coincident joint nodes, found {len(joint)}")
+        simu.add_connection_fixed(joint)
+    return simu, simu.mesh, joint
+
+
 def patch_test(case: dict, ctx: Ctx, rng: np.random.Generator) -> None:
     """Constant axial strain and constant curvature prescribed at the two end nodes of a member along x;
-    every interior node must carry the analytic field (right-handed rotation convention: v' = rz, w' = -ry)."""
+    every interior node must carry the analytic field (right-handed rotation convention: v' = rz, w' = -ry).
+    mesh class 'welded': the member is made of two beams joined by a fixed connection (Lagrange-multiplier solve)."""
     dim, et, theory = case["dim"], case["et"], case["theory"]
-    key = f"C01/beam/{dim}D/{et}/{theory}"
+    welded = case.get("mesh") == "welded"
+    key = f"C01/beam/{dim}D/{et}/{theory}" + ("/welded" if welded else "")
     ctx.default_key = key
     L = float(rng.uniform(1.0, 5.0))
     n = int(rng.integers(2, 6))
@@ -48,7 +69,10 @@ def patch_test(case: dict, ctx: Ctx, rng: np.random.Generator) -> None:
     E, v = float(rng.uniform(1e3, 1e5)), float(rng.uniform(0.0, 0.4))
     x0 = float(rng.uniform(-1, 1))
     with ctx.monitored("no-exception", key + "/raised"):
-        simu, mesh, beam, line = make_member(dim, et, theory, (x0, 0, 0), (x0 + L, 0, 0), n, b, h, E, v)
+        if welded:
+            simu, mesh, joint = make_welded(dim, et, theory, x0, L, n, b, h, E, v, float(rng.uniform(0.3, 0.7)))
+        else:
+            simu, mesh, beam, line = make_member(dim, et, theory, (x0, 0, 0), (x0 + L, 0, 0), n, b, h, E, v)
     X = mesh.coord
     s = X[:, 0] - x0
     used = np.unique(mesh.groupElem.connect.ravel())
@@ -84,6 +108,8 @@ def patch_test(case: dict, ctx: Ctx, rng: np.random.Generator) -> None:
         with ctx.monitored("no-exception", key + "/raised"):
             with quiet():
                 simu.Bc_Init()
+                if welded:
+                    simu.add_connection_fixed(joint)
                 simu.add_dirichlet(ends, [U[ends, i] for i in range(dof_n)], unknowns)
                 K = simu.Get_K_C_M_F()[0]
                 sol = simu.Solve().reshape(Nn, dof_n)
@@ -92,6 +118,10 @@ def patch_test(case: dict, ctx: Ctx, rng: np.random.Generator) -> None:
         free = np.setdiff1d(dofs_used, dofs_end)
         u_lin = U.ravel()
         mkey = f"{key}/{mode}"
+        if welded:
+            # the matrix carries the multiplier rows; the two joint nodes hold opposite constraint forces
+            K = K.tocsr()[: u_lin.size, : u_lin.size]
+            free = np.setdiff1d(free, (joint[:, None] * dof_n + np.arange(dof_n)).ravel())
         if len(free):
             r = (K @ u_lin)[free]
             # scale row-wise: rotations and translations have different units
